@@ -1,4 +1,4 @@
 SPECIFICATION Spec
-CONSTANTS N3 = 2  N2 = 1  N4 = 0  E = 1  A = 1  I = 1  NL = {0}  EL = {0}  TL = 1  TNL = {0}  NL4 = {0}
+CONSTANTS N3 = 2  N2 = 1  N4 = 0  E = 1  A = 1  I = 1  NL = {0}  EL = {0}  TL = 1  TNL = {0}  NL4 = {0}  MidN = 2  MidI = 2
 INVARIANTS Laws
 CHECK_DEADLOCK FALSE
